@@ -3,6 +3,46 @@ import vlib
 from props import exact_common as ec
 
 
+def float_pairs(seed, n):
+    """Pairs of segments with float64 ordinates (as exact 'm:e' strings) in the region where a floating-point evaluation of
+    the orientation tests is unreliable: an endpoint computed ALONG the other segment (so it lies within an ulp of it, on
+    one side or exactly on it), both endpoints computed along it (nearly collinear), one-decimal ordinates that are
+    collinear in decimal arithmetic, a shared endpoint, and the same at magnitudes 2^-100 / 2^100."""
+    import random
+    r = random.Random(seed * 11 + 1)
+    out = []
+    fams = ["near-touch", "near-collinear", "decimal", "shared-end", "near-touch-scaled"]
+
+    def along(a, b, t):
+        return [a[0] + t * (b[0] - a[0]), a[1] + t * (b[1] - a[1])]
+    while len(out) < n:
+        fam = fams[len(out) % len(fams)]
+        a = [1 + r.random(), 1 + r.random()]
+        b = [1 + r.random(), 1 + r.random()]
+        if fam == "near-touch" or fam == "near-touch-scaled":
+            c = along(a, b, r.choice([r.random(), 0.5, 0.25, 1.0 / 3]))
+            e = [r.random() * 3, r.random() * 3]
+        elif fam == "near-collinear":
+            c, e = along(a, b, r.uniform(-0.5, 1.5)), along(a, b, r.uniform(-0.5, 1.5))
+        elif fam == "decimal":
+            k = [r.randrange(0, 40) for _ in range(4)]
+            dx, dy = r.randrange(1, 6), r.randrange(-5, 6)
+            x0, y0 = r.randrange(0, 30), r.randrange(0, 30)
+            a, b = [(x0 + k[0] * dx) / 10.0, (y0 + k[0] * dy) / 10.0], [(x0 + k[1] * dx) / 10.0, (y0 + k[1] * dy) / 10.0]
+            c, e = [(x0 + k[2] * dx) / 10.0, (y0 + k[2] * dy) / 10.0], [(x0 + k[3] * dx) / 10.0, (y0 + k[3] * dy) / 10.0]
+            if r.randrange(2):
+                e = [r.randrange(0, 60) / 10.0, r.randrange(0, 60) / 10.0]
+        else:
+            c, e = b[:], [r.random() * 3, r.random() * 3]
+        if fam.endswith("scaled"):
+            sc = 2.0 ** r.choice([-100, 100])
+            a, b, c, e = [[v * sc for v in p] for p in (a, b, c, e)]
+        if a == b or c == e:
+            continue
+        out.append(dict(fam="float/" + fam, nr=False, seg=[[ec.to_exact(v) for v in p] for p in (a, b, c, e)]))
+    return out
+
+
 def big_pipe(ctx, verdict, cases, name="segsegx"):
     """Large-grid tier: the driver runs each pair in all 8 argument symmetries; Apalache decides every row with
     ExactGeom!SegSegOK on exact integers (class, exact endpoints, crossing point within the forward-error bound)."""
@@ -14,10 +54,10 @@ def big_pipe(ctx, verdict, cases, name="segsegx"):
         if o["ev"] != "ok":
             parts = ["FALSE"]
         rows = o.get("rows", [])
-        if ctx.quick:                  # 4 of the 8 symmetries (identity, reversed first, swapped, swapped + reversed)
-            rows = [rows[j] for j in (0, 1, 4, 7)] if len(rows) == 8 else rows
+        if ctx.quick:                  # 5 of the 8 symmetries (identity, first / second reversed, swapped, swapped + both reversed)
+            rows = [rows[j] for j in (0, 1, 2, 4, 7)] if len(rows) == 8 else rows
         for row in rows:
-            if row["ev"] != "ok" or any(v["t"] != "num" for p in row["p"] for v in p):
+            if row["ev"] != "ok" or any(v["t"] not in ("num", "big") for p in row["p"] for v in p):   # "big": finite, beyond the fixed-point field
                 parts.append("FALSE")
                 continue
             sin = [v for p in row["x"] for v in p]
@@ -27,8 +67,11 @@ def big_pipe(ctx, verdict, cases, name="segsegx"):
             ps = "<<" + ", ".join(ec.tla_pt(i_out[2 * j:2 * j + 2]) for j in range(len(i_out) // 2)) + ">>"
             sc = max(1, max(abs(v) for v in i_in))
             parts.append('SegSegOK(%s, %s, %s, %s, "%s", %s, %d)' % (pts[0], pts[1], pts[2], pts[3], row["t"], ps, sc))
+            # Result.HasIntersection goes with the reported class
+            if row.get("has") != (row["t"] != "none"):
+                parts.append("FALSE")
             nr_ok = row["nr"] == (row["t"] != "none")
-            if not nr_ok:
+            if not nr_ok and c.get("nr", True):      # (not judged in the float tier: "on exactly representable inputs")
                 # the non-robust strategy must agree on "intersect at all" for exactly representable input:
                 # stated against the spec's class so that a wrong robust class cannot mask it
                 parts.append('((SegSegClass(%s, %s, %s, %s) # "none") = %s)' % (pts[0], pts[1], pts[2], pts[3],
@@ -118,10 +161,13 @@ PIPES = {"segseg": ec.pipe("segseg"), "segsegx": big_pipe}
 
 
 def run(ctx, verdict):
+    # direction / order independence of OnSeg, Collinear4 and SegsMeet for ALL integer points (TLAPS)
+    vlib.tlapm(ctx, "ExactGeomProofs", ["ExactGeom"])
     ec.family(ctx, verdict, "segseg")
     cases = [c for c in ec.seg_pairs(ctx.seed, 132 if ctx.quick else 900) if c["seg"][2] != c["seg"][3]]
     cases += screened(ctx, 6000 if ctx.quick else 60000, 24 if ctx.quick else 150)
     cases += tee_pool(ctx, 40000 if ctx.quick else 400000, 12 if ctx.quick else 60)
+    cases += float_pairs(ctx.seed, 40 if ctx.quick else 600)
     vlib.note_cases(ctx, cases)
     big_pipe(ctx, verdict, cases)
     ctx.coverage_extra["big_tier"] = dict(pairs=len(cases), rows=8 * len(cases), grids=[1 << 10, 1 << 16, 1 << 20],
@@ -129,5 +175,6 @@ def run(ctx, verdict):
     ctx.assumptions += ["every ordered pair of non-degenerate segments of the N x N grid (all 8 argument symmetries "
                         "are members of the enumeration); crossing points compared in 2^-10 fixed point in the TLC tier",
                         "large-grid tier: seeded biased pairs (touching, T, collinear overlap/touch/apart, parallel, "
-                        "axis-parallel crossings, near-parallel) on grids up to 2^20, crossing point within "
+                        "axis-parallel crossings, near-parallel) on grids up to 2^20 and float64 pairs within an ulp of touching / "
+                        "collinear (class and points only; the non-robust clause is judged on integer input), crossing point within "
                         "2^-30*scale + 2^-45*l1*l2*(l1+l2)/|den| of the exact rational point"]
